@@ -161,7 +161,6 @@ let fmt_opts (o : options) =
 
 (* ------------------------------------------------------------ oracle environment from records *)
 exception Oracle_miss of string
-
 let split_records (t : string array) (from : int) : string list list =
   let recs = ref [] and cur = ref [] in
   for i = from to Array.length t - 1 do
@@ -170,6 +169,26 @@ let split_records (t : string array) (from : int) : string list list =
   done;
   if !cur <> [] then recs := List.rev !cur :: !recs;
   List.rev !recs
+
+(* the clock as recorded from the implementation: skipped trials (K records) and the answers given
+   to the reduction sites in program order (M record; the closure is stateful on purpose: the model
+   must consult the reduction sites in the same order as the code did) *)
+let dl_of_records (recs : string list list) : site -> bool =
+  let skipped = Hashtbl.create 16 in
+  let answers = ref "" in
+  List.iter (function
+      | ["K"; e; n; f] -> Hashtbl.replace skipped (int_of_string e, int_of_string n, int_of_string f) ()
+      | ["M"; a] -> answers := a
+      | _ -> ()) recs;
+  let counter = ref 0 in
+  fun site ->
+    match site with
+    | STrial (ev, nth, f) -> Hashtbl.mem skipped (int_of_nat ev, int_of_nat nth, int_of_z f)
+    | SFrame _ -> false
+    | _ ->
+      let i = !counter in
+      incr counter;
+      if i < String.length !answers then !answers.[i] = '1' else raise (Oracle_miss "clock")
 
 let env_of_records (recs : string list list) (dlf : site -> bool) : env =
   let dt = Hashtbl.create 64 and it = Hashtbl.create 16 and bt = Hashtbl.create 16 in
@@ -277,7 +296,7 @@ let run (t : string array) : string =
   | "opt_replay" ->
     let o = parse_opts t.(1) in
     let recs = split_records t 4 in
-    let env = env_of_records recs (fun _ -> false) in
+    let env = env_of_records recs (if t.(2) = "-" then (fun _ -> false) else dl_of_records recs) in
     (try res_str hex (optimize_from_memory env o (unhex t.(3)))
      with Oracle_miss m -> "oracle-miss " ^ m)
   (* evalmodel <deflater-opts> <alpha> <final> <init|-> <filters> <order|-> <nimg> <img>... | records *)
